@@ -6,7 +6,7 @@
    Run(Lower(prog)) with exactly those deviations switched on - used only to attribute an
    already rejected trace to an open known finding.
    Diagnostic (never a verdict): whether the real parser's model equals Lower(prog).       *)
-EXTENDS BareLower, Json, IOUtils
+EXTENDS BareLower, Json, IOUtils, TreeEq
 
 Cases == JsonDeserialize(IOEnv.CASES)
 VARIABLES tid, verdict
@@ -65,7 +65,7 @@ Judge ==
     ELSE <<"ACCEPT">>
 
 \* diagnostic only
-LoweringConformant == Lower(C.prog) = C.parsed
+LoweringConformant == ModelEq(Lower(C.prog), C.parsed)
 
 Init == tid \in 1..Len(Cases) /\ verdict = "open"
 Next == /\ verdict = "open"
